@@ -17,21 +17,35 @@
 #include "../eventpolicies.h"
 
 #include <vector>
+#include <list>
 #include <algorithm>
 
 namespace eventpp {
 
 namespace internal_ {
 
-template <typename Item, typename Handle, typename Mutex>
-bool removeHandleFromScopedRemoverItemList(std::vector<Item> & itemList, Handle & handle, Mutex & mutex)
+template <typename ItemList, typename Handle, typename Mutex>
+bool hasHandleInScopedRemoverItemList(ItemList & itemList, Handle & handle, Mutex & mutex)
 {
 	if(! handle) {
 		return false;
 	}
 	auto handlePointer = handle.lock();
 	std::unique_lock<Mutex> lock(mutex);
-	auto it = std::find_if(itemList.begin(), itemList.end(), [&handlePointer](Item & item) {
+	return std::find_if(itemList.begin(), itemList.end(), [&handlePointer](typename ItemList::value_type & item) {
+		return item.handle && item.handle.lock() == handlePointer;
+	}) != itemList.end();
+}
+
+template <typename ItemList, typename Handle, typename Mutex>
+bool removeHandleFromScopedRemoverItemList(ItemList & itemList, Handle & handle, Mutex & mutex)
+{
+	if(! handle) {
+		return false;
+	}
+	auto handlePointer = handle.lock();
+	std::unique_lock<Mutex> lock(mutex);
+	auto it = std::find_if(itemList.begin(), itemList.end(), [&handlePointer](typename ItemList::value_type & item) {
 		return item.handle && item.handle.lock() == handlePointer;
 	});
 	if(it != itemList.end()) {
@@ -171,10 +185,16 @@ public:
 
 	bool removeListener(const typename DispatcherType::Event & event, const typename DispatcherType::Handle handle)
 	{
-		if(internal_::removeHandleFromScopedRemoverItemList(itemList, handle, itemListMutex)) {
-			return dispatcher->removeListener(event, handle);
+		// Only listeners added through this remover are touched.
+		if(! internal_::hasHandleInScopedRemoverItemList(itemList, handle, itemListMutex)) {
+			return false;
 		}
-		return false;
+		// The listener is removed from the dispatcher before its record is forgotten: looking the
+		// event up runs user code (comparison, hash) which may throw, and then this remover must
+		// still know the listener. Erasing the record from the std::list can't throw.
+		const bool removed = dispatcher->removeListener(event, handle);
+		internal_::removeHandleFromScopedRemoverItemList(itemList, handle, itemListMutex);
+		return removed;
 	}
 
 private:
@@ -194,7 +214,8 @@ private:
 
 private:
 	DispatcherType * dispatcher;
-	std::vector<Item> itemList;
+	// A list, not a vector: erasing a record must not run (possibly throwing) assignments of the user's Event type.
+	std::list<Item> itemList;
 	typename DispatcherType::Mutex itemListMutex;
 };
 
